@@ -330,6 +330,8 @@ def st(ctx):
     ins, rem = c02._hc_split(crate)
     tot = dec = 0
     nfun = 0
+    pol_ = mir.default_inline_policy(crate)
+    acc_ = crate._cache.get("accessor_policy", set())
     for b in crate.fns():
         if not (b.file or "").startswith("src/"):
             continue
@@ -338,7 +340,11 @@ def st(ctx):
         # can change what eq() answers: outside the scope of this rule
         if (b.file or "").startswith("src/explain/"):
             continue
-        errs, (sites, d) = spaces.check_function(crate, mir.accessor_view(crate, b), ins)
+        # a private helper with a single call site is typed inside its caller (its parameters are then the caller's values:
+        # `add_self_symmetry(i, &a, &b, proof)` makes sense only with what the caller knows about i, a and b)
+        if b.id in pol_ and b.id not in acc_:
+            continue
+        errs, (sites, d) = spaces.check_function(crate, mir.accessor_view(crate, mir.inline_view(crate, b)), ins)
         tot += sites
         dec += d
         if sites:
@@ -373,11 +379,8 @@ def r6(ctx):
     sw = set(C.slot_writers(crate))
     leaders = set(C.leader_union_functions(crate)) | set(C.leader_helpers(crate))
     n = 0
-    for b in crate.fns():
-        if b.id in leaders or b.id in sw:
-            continue
-        adds = [c for c in b.all_calls() if c.callee and c.callee.is_("add", "group::Group") and c.args and role_mentions_field(c.body.role_of_operand(c.args[0]), "classes")]
-        for c in adds:
+    for b, c in C.self_symmetry_sites(crate):
+        if True:
             n += 1
             good = []
             for e, cond in C.conditions_at(c.body, c.bb):
